@@ -292,8 +292,14 @@ func (g *pgen) gen() string {
 			case 'V':
 				g.put(g.value(cy-oy, coin), 'n')
 			case 'C':
-				// first control point on the reflection (C becomes S) or on an end point
-				k := g.r.Intn(4)
+				// the end point is chosen first so that control points can be aimed at it (exactly degenerate curves:
+				// both control points on the start or the end point); tokens are still written in path order
+				exs, eys := g.value(cx-ox, coin && g.r.Chance(1, 6)), g.value(cy-oy, coin && g.r.Chance(1, 6))
+				exv, _ := strconv.ParseFloat(exs, 64)
+				eyv, _ := strconv.ParseFloat(eys, 64)
+				ex, ey := exv+ox, eyv+oy
+				// first control point on the reflection (C becomes S), on an end point, or on the unreflected point
+				k := g.r.Intn(5)
 				switch {
 				case coin && k == 0 && fam == 'C':
 					pair(rx, ry, true)
@@ -301,11 +307,23 @@ func (g *pgen) gen() string {
 					pair(cx, cy, true)
 				case coin && k == 2 && fam == 'C':
 					pair(g.pcx, g.pcy, true) // near miss: the unreflected point
+				case coin && k == 3:
+					pair(ex, ey, true)
+					g.hit("curve:cp1-on-end")
 				default:
 					pair(0, 0, false)
 				}
-				pair(cx, cy, coin && g.r.Chance(1, 3))
-				pair(cx, cy, coin && g.r.Chance(1, 6))
+				switch {
+				case coin && g.r.Chance(1, 3):
+					pair(cx, cy, true)
+				case coin && g.r.Chance(1, 3):
+					pair(ex, ey, true)
+					g.hit("curve:cp2-on-end")
+				default:
+					pair(cx, cy, false)
+				}
+				g.put(exs, 'n')
+				g.put(eys, 'n')
 			case 'S':
 				pair(cx, cy, coin && g.r.Chance(1, 3))
 				pair(cx, cy, coin && g.r.Chance(1, 6))
